@@ -40,11 +40,22 @@ type SchedPlan struct {
 	Pct int `json:"pct"`
 	// Max is the maximal pause in units of 16 processor yields.
 	Max int `json:"max"`
+	// HoldManifest > 0: a MANIFEST sync issued by a background goroutine is held
+	// back until the foreground has executed that many further plan steps (or a
+	// bounded number of yields has elapsed, e.g. because the foreground itself
+	// waits for that version edit). This stretches the window in which a version
+	// edit has been written but is not yet durable while foreground operations
+	// (commits, WAL rotations, reader closes, obsolete-file passes) continue.
+	HoldManifest int `json:"holdman,omitempty"`
 }
 
 type schedFS struct {
 	vfs.FS
-	sp  *SchedPlan
+	// stepNow returns the index of the plan step the foreground is executing;
+	// fg is the goroutine id of the foreground (never held).
+	stepNow func() int64
+	holds   atomic.Int64
+	sp      *SchedPlan
 	n   atomic.Int64
 	cnt atomic.Int64 // pauses taken
 	on  atomic.Bool
@@ -145,7 +156,27 @@ type schedFile struct {
 	dir  bool
 }
 
+// holdManifestSync implements SchedPlan.HoldManifest (called before the sync).
+func (f *schedFile) holdManifestSync() {
+	s := f.s
+	if s.sp.HoldManifest <= 0 || s.stepNow == nil || !s.on.Load() || f.dir || !strings.Contains(f.path, "MANIFEST") {
+		return
+	}
+	if curGoroutineIsForeground() {
+		return
+	}
+	s0 := s.stepNow()
+	s.holds.Add(1)
+	for i := 0; i < 30000 && s.on.Load(); i++ {
+		if s.stepNow() >= s0+int64(s.sp.HoldManifest) {
+			return
+		}
+		runtime.Gosched()
+	}
+}
+
 func (f *schedFile) Sync() error {
+	f.holdManifestSync()
 	err := f.File.Sync()
 	if f.dir {
 		f.s.after("dirsync", f.path)
@@ -174,3 +205,22 @@ func (f *schedFile) Close() error {
 	}
 	return err
 }
+
+// foregroundGID is the goroutine id of the goroutine executing plan steps.
+var foregroundGID atomic.Int64
+
+func curGoroutineID() int64 {
+	var buf [64]byte
+	n := runtime.Stack(buf[:], false)
+	// "goroutine 123 [running]:"
+	var id int64
+	for _, c := range buf[10:n] {
+		if c < '0' || c > '9' {
+			break
+		}
+		id = id*10 + int64(c-'0')
+	}
+	return id
+}
+
+func curGoroutineIsForeground() bool { return curGoroutineID() == foregroundGID.Load() }
